@@ -26,28 +26,37 @@ CLANG = 'clang-14'
 CFLAGS = ['-O1', '-fno-vectorize', '-fno-slp-vectorize', '-fno-discard-value-names', '-Wno-everything']
 
 ROT_WIDTHS = (8, 16, 32, 64, 9, 17, 33)
+BN_BITS = 256             # bn.h: BN_BYTE_SIZE 32
 BIN = [o for o in T.BIN if o not in ('/', '%')]          # TranslatorC has no '/' and '%'
 
 META = dict(
     functions=["miasm.ir.translators.C.TranslatorC.from_expr / from_ExprOp / from_ExprSlice / from_ExprCompose / from_ExprCond / "
                "from_ExprInt / from_ExprId / from_ExprMem", "miasm/jitter/op_semantics.h: SHIFT_RIGHT_ARITH / SHIFT_RIGHT_LOGIC / "
                "SHIFT_LEFT_LOGIC / parity / UDIV / UMOD / SDIV / SMOD", "miasm/jitter/op_semantics.c: rot_left / rot_right / "
-               "cntleadzeros / cnttrailzeros / udivN / umodN / sdivN / smodN / parity_table (LLVM IR of the current source)"],
+               "cntleadzeros / cnttrailzeros / udivN / umodN / sdivN / smodN / parity_table (LLVM IR of the current source)",
+               "miasm/jitter/bn.c: bignum_from_string / from_uint64 / to_uint64 / add / sub / and / or / xor / not / lshift / rshift / "
+               "a_rshift / rol / ror / mask / is_zero / cntleadzeros / cnttrailzeros / getbit / sdiv (first statements) (LLVM IR of "
+               "the current source; 256-bit bn_t passed by value)"],
     stubs=["MEM_LOOKUP_nn(jitcpu, addr) -> uninterpreted function of the 64-bit address (same function on the reference side)",
-           "fprintf/fwrite(stderr) -> recorded, no effect", "exit() -> path ends (a violation when the reference is defined)"],
+           "fprintf/fwrite(stderr) -> recorded, no effect", "sscanf(str, \"%8x\", &word) on a constant string (bignum_from_string) -> "
+           "interpreted", "uninitialised stack bytes -> arbitrary values", "exit() -> path ends (a violation when the reference is defined)"],
     bounds=dict(quick=dict(widths=[1, 8, 16, 32, 64], shift_widths=[8, 16, 32, 64], depth2_widths=[8, 32], depth2_fraction=0.2,
-                           max_div_width=32, max_mul_width=64, query_timeout_s=20, loop_steps=20000),
+                           max_div_width=32, max_mul_width=64, wide_widths=[80, 128], query_timeout_s=20, loop_steps=200000),
                 thorough=dict(widths=[1, 3, 8, 16, 17, 32, 64], shift_widths=[8, 16, 32, 64], depth2_widths=[8, 16, 32],
-                              depth2_fraction=1.0, max_div_width=64, max_mul_width=64, query_timeout_s=60, loop_steps=20000)),
-    outside=["values wider than 64 bits (big-number path bn.c): not encoded", "floating-point operators", "shifts, divisions and "
+                              depth2_fraction=1.0, max_div_width=64, max_mul_width=64, wide_widths=[72, 80, 128, 200, 256], query_timeout_s=60,
+                              loop_steps=200000)),
+    outside=["big-number path: bignum_mul / bignum_udiv / bignum_umod / bignum_sdiv / bignum_smod have data-dependent loops: attempted "
+             "under the per-shape budget (thorough; quick keeps plain sdiv only) and normally end inconclusive", "wide memory reads "
+             "(MEM_LOOKUP_INT_BN / _BN_INT / _BN_BN)", "floating-point operators", "shifts, divisions and "
              "remainders on widths other than 8/16/32/64 (SHIFT_* instantiate uint<size>_t and udivN/sdivN/... exist for these sizes "
              "only: other widths do not compile), memory reads of other sizes (no MEM_LOOKUP_nn), rotations on widths other than "
              "8/16/32/64/9/17/33 (rot_left/rot_right refuse them at run time with 'inv size' and exit)", "x86_cpuid, segm, bcdadd, "
              "access_/load_ operators", "clang-14 -O1 stands for 'the C compiler': gcc's code generation is not modelled",
              "the real MEM_LOOKUP_* (vm_mngr.c, property C24)"],
     assumptions=["identifiers hold values below 2^size (codegen masks every assignment)", "every divisor of the expression is "
-                 "non-zero (miasm's evaluation is undefined otherwise)", "the value observed is (<text>) & mask(size), as "
-                 "codegen.py emits it"],
+                 "non-zero (miasm's evaluation is undefined otherwise)", "the value observed is (<text>) & mask(size), resp. "
+                 "bignum_mask(<text>, size) for wide values, as codegen.py emits it", "AssertionError / NotImplementedError raised "
+                 "by TranslatorC = the expression is not accepted"],
     rule="shape = expression over identifiers (operands fully symbolic); obligations per path of the C code; non-trivial = shape whose "
          "C code calls into op_semantics.c or forks",
     explanation="Translation validation through the compiler's IR: the C text produced by the real translator is compiled with the "
@@ -74,6 +83,9 @@ def all_shapes(tier, seed):
     for sid, src in sh:
         m = re.search(r':w(\d+)', sid)
         w = int(m.group(1)) if m else None
+        if w is not None and w > 64:
+            out.append((sid, src))
+            continue
         if re.search(r"'(<<|>>|a>>|udiv|umod|sdiv|smod)'", src) and w not in b['shift_widths']:
             continue          # SHIFT_* / udivN... exist for uint8/16/32/64 only: other widths do not compile
         if re.search(r"'(<<<|>>>)'", src) and w not in ROT_WIDTHS:
@@ -81,6 +93,29 @@ def all_shapes(tier, seed):
         if sid == 'mem:p16:24':
             continue          # MEM_LOOKUP_nn exists for 8/16/32/64 only
         out.append((sid, src))
+    # big-number path (bn.c): values wider than 64 bits
+    wide = T.shapes(b['wide_widths'], seed + 1, BIN, T.CMP, T.UN, ext=False, deep_widths=(), mem=False,
+                    max_div_width=256, max_mul_width=256, max_sdiv_width=256)
+    for sid, src in wide:
+        # data-dependent loops (bignum_udiv and its users) and wide products are hopeless symbolically: one plain shape and
+        # one constant shape each, under the per-shape budget; the rest would only add time-outs
+        if re.search(r"'(udiv|umod|sdiv|smod|\*)'", src):
+            if tier == 'quick' and not (sid.startswith('bin:sdiv:') and not re.search(r":c[0-9a-f]+", sid)):
+                continue      # thorough only (they end inconclusive after the budget); plain sdiv stays: its first statements matter
+            if re.search(r":c[0-9a-f]+", sid) and not sid.endswith(':c1'):
+                continue
+        out.append(('wide:' + sid, src))
+    for w in b['wide_widths']:
+        a, c_ = T.I('a', w), T.I('c', 32)
+        out.append(('wide:slice-to-native:w%d' % w, "ExprSlice(%s, %d, %d)" % (a, w - 40, w - 8)))
+        out.append(('wide:compose-native:w%d' % w, "ExprCompose(%s, ExprSlice(%s, 0, %d))" % (c_, a, w - 32)))
+        out.append(('wide:cond-native:w%d' % w, "ExprCond(%s, %s, %s)" % (c_, a, T.I('b', w))))
+        out.append(('wide:shift-native-count:w%d' % w, T.O('<<', a, "ExprCompose(%s, %s)" % (T.I('n', 8), T.C(0, w - 8)))))
+        # shift / rotation counts below the width (n & 0x3f, zero-extended): the in-range behaviour of the wide shifts
+        cnt = "ExprCompose(ExprSlice(%s, 0, 6), %s)" % (T.I('n', 8), T.C(0, w - 6))
+        for op in ('<<', '>>', 'a>>', '<<<', '>>>'):
+            out.append(('wide:inrange:%s:w%d' % (op, w), T.O(op, a, cnt)))
+        out.append(('wide:const-slice:w%d' % w, "ExprSlice(%s, %d, %d)" % (T.C((0xC000A1B2C3D4E5F60718 << (w - 80)) | 0x5a, w), w - 8, w)))
     # rcl/rcr rotate a register extended by the carry: widths 9, 17 and 33 have their own cases in rot_left/rot_right
     for w in (9, 17, 33):
         a, bb = T.I('a', w), T.I('b', w)
@@ -95,7 +130,11 @@ def all_shapes(tier, seed):
 
 def tasks(tier, seed):
     sh = all_shapes(tier, seed)
-    return [dict(id='c:%05d' % i, shapes=sh[i:i + CHUNK], tier=tier) for i in range(0, len(sh), CHUNK)]
+    native = [x for x in sh if not x[0].startswith('wide:')]
+    wide = [x for x in sh if x[0].startswith('wide:')]
+    ts = [dict(id='c:%05d' % i, shapes=native[i:i + CHUNK], tier=tier) for i in range(0, len(native), CHUNK)]
+    ts += [dict(id='w:%05d' % i, shapes=wide[i:i + 6], tier=tier, cost=2) for i in range(0, len(wide), 6)]
+    return ts
 
 
 def twins(tier):
@@ -107,6 +146,7 @@ HEADER = """#include <stdio.h>
 #include <stdlib.h>
 #include <stdint.h>
 #include "op_semantics.h"
+#include "bn.h"
 typedef struct { int dummy; } JitCpu;
 extern JitCpu *jitcpu;
 extern uint8_t MEM_LOOKUP_08(JitCpu *jitcpu, uint64_t addr);
@@ -119,10 +159,13 @@ extern uint64_t MEM_LOOKUP_64(JitCpu *jitcpu, uint64_t addr);
 def c_function(k, e, text):
     from miasm.expression.expression import get_expr_ids
     ids = sorted(get_expr_ids(e), key=lambda x: x.name)
-    rty, _ = ctype(e.size)
-    params = ", ".join("%s %s" % (ctype(i.size)[0], i.name) for i in ids)
-    mask = "0x%xULL" % ((1 << e.size) - 1)
-    return "%s f%d(%s) { return (%s) & %s; }" % (rty, k, params or 'void', text, mask), ids
+    params = ", ".join("%s %s" % (ctype(i.size)[0] if i.size <= 64 else 'bn_t', i.name) for i in ids)
+    if e.size <= 64:
+        rty, _ = ctype(e.size)
+        mask = "0x%xULL" % ((1 << e.size) - 1)
+        return "%s f%d(%s) { return (%s) & %s; }" % (rty, k, params or 'void', text, mask), ids
+    # wide destination: codegen emits  dst = bignum_mask(<text>, size);
+    return "bn_t f%d(%s) { return bignum_mask(%s, %d); }" % (k, params or 'void', text, e.size), ids
 
 
 def translate(shapes):
@@ -132,7 +175,7 @@ def translate(shapes):
     for sid, src in shapes:
         e = T.build(src)
         rec = dict(sid=sid, src=src, e=e, text=None, status='ok')
-        if e.size > 64 or any(x.size > 64 for x in _subexprs(e)):
+        if e.size > BN_BITS or any(x.size > BN_BITS for x in _subexprs(e)):
             rec['status'] = 'wide'
         else:
             try:
@@ -142,9 +185,10 @@ def translate(shapes):
                     rec['why'] = "from_expr returned %r instead of C text" % (txt,)
                 else:
                     rec['text'] = txt
-            except NotImplementedError as ex:
+            except (NotImplementedError, AssertionError) as ex:
+                # explicit refusal ('Unknown op', size guards such as `assert size <= 64`): the translator does not accept it
                 rec['status'] = 'rejected'
-                rec['why'] = str(ex)
+                rec['why'] = "%s %s" % (type(ex).__name__, ex)
             except Exception as ex:
                 rec['status'] = 'exception'
                 rec['why'] = "%s: %s" % (type(ex).__name__, ex)
@@ -160,7 +204,7 @@ def _subexprs(e):
 
 def compile_ll(recs, workdir):
     """Compile the accepted shapes (one function each) and the runtime to LLVM IR.  Functions that do not compile are
-    marked and left out.  -> (module text of the shapes, module text of op_semantics.c)"""
+    marked and left out.  -> text of the linked module (shapes + op_semantics.c + bn.c)"""
     live = [r for r in recs if r['status'] == 'ok']
     for attempt in range(len(live) + 1):
         lines = [HEADER]
@@ -192,11 +236,18 @@ def compile_ll(recs, workdir):
         live = [r for r in live if r['status'] == 'ok']
         if not dropped:
             raise RuntimeError("clang failed: %s" % p.stderr[:500])
-    p = subprocess.run([CLANG] + CFLAGS + ['-S', '-emit-llvm', '-I', JITTER, os.path.join(JITTER, 'op_semantics.c'), '-o',
-                                           os.path.join(workdir, 'ops.ll')], capture_output=True, text=True)
+    lls = [os.path.join(workdir, 't.ll')]
+    for unit in ('op_semantics.c', 'bn.c'):
+        out = os.path.join(workdir, unit[:-2] + '.ll')
+        p = subprocess.run([CLANG] + CFLAGS + ['-S', '-emit-llvm', '-I', JITTER, os.path.join(JITTER, unit), '-o', out],
+                           capture_output=True, text=True)
+        if p.returncode != 0:
+            raise RuntimeError("clang failed on %s: %s" % (unit, p.stderr[:500]))
+        lls.append(out)
+    p = subprocess.run(['llvm-link-14', '-S'] + lls + ['-o', os.path.join(workdir, 'all.ll')], capture_output=True, text=True)
     if p.returncode != 0:
-        raise RuntimeError("clang failed on op_semantics.c: %s" % p.stderr[:500])
-    return open(os.path.join(workdir, 't.ll')).read(), open(os.path.join(workdir, 'ops.ll')).read()
+        raise RuntimeError("llvm-link failed: %s" % p.stderr[:500])
+    return open(os.path.join(workdir, 'all.ll')).read()
 
 
 class BVInput(object):
@@ -241,14 +292,10 @@ def run_task(task):
         r['k'] = k
     workdir = tempfile.mkdtemp(prefix='c04_')
     try:
-        t_ll, ops_ll = compile_ll(recs, workdir)
+        all_ll = compile_ll(recs, workdir)
     finally:
         shutil.rmtree(workdir, ignore_errors=True)
-    mod = llsym.Module(ops_ll)
-    mod_t = llsym.Module(t_ll)
-    mod.funcs.update(mod_t.funcs)
-    for g, v in mod_t.globals.items():
-        mod.globals.setdefault(g, v)
+    mod = llsym.Module(all_ll)
     externals = {'MEM_LOOKUP_%02d' % s: mem_lookup(s) for s in (8, 16, 32, 64)}
     for r in recs:
         sid = r['sid']
@@ -256,46 +303,64 @@ def run_task(task):
             res.setdefault('rejected', 0)
             res['rejected'] += 1
             continue
-        if r['status'] == 'exception':
+        if r['status'] in ('exception', 'does-not-compile'):
             res['obligations'] += 1
-            res['violations'].append(dict(site=sid, ob='translator-exception', src=r['src'], inputs={}, exc=r['why']))
-            continue
-        if r['status'] == 'does-not-compile':
-            res['obligations'] += 1
-            res['violations'].append(dict(site=sid, ob='compiles', src=r['src'], inputs={}, text=r['text'], exc=r['why']))
+            v = dict(site=sid, ob='translator-exception' if r['status'] == 'exception' else 'compiles', src=r['src'], inputs={},
+                     text=r['text'], exc=r['why'])
+            for kf in known:
+                if kf.get('status', 'known') == 'known' and common.site_matches(kf, sid) and kf.get('ob') in (None, v['ob']) \
+                        and kf.get('ob_regex') is None:
+                    v['known'] = kf['id']
+            res['violations'].append(v)
             continue
         e = r['e']
         eng = Engine(timeout_ms=b['query_timeout_s'] * 1000, max_paths=3000)
-        eng.deadline = time.time() + 8 * b['query_timeout_s']
+        eng.deadline = time.time() + (8 * b['query_timeout_s'] if not sid.startswith('wide:') else 3 * b['query_timeout_s'])
         eng.on_path_end = common.make_known_attributor(known, sid)
+        eng.fifo = sid.startswith('wide:')      # breadth first: the early branches of the big-number routines come first
         info = dict(called=set(), paths=0)
 
         def fn(eng, r=r, e=e):
             ref = make_ref(task.get('bug'))
             want = ref.tr(e)
+            it = llsym.Interp(mod, eng, externals, max_steps=b['loop_steps'])
+            f = mod.funcs['f%d' % r['k']]
             args = []
+            sret = bool(f.params) and any(mk.startswith('@@sret') for mk in f.params[0][2])
+            if sret:
+                it.mem['result'] = [z3.BitVec('result_uninit_%d' % k_, 8) for k_ in range(BN_BITS // 8)]
+                args.append(llsym.Ptr('result', 0))
             for i in r['ids']:
                 z = ref.var(i.name, i.size)
                 eng.inputs[i.name] = BVInput(z, i.size)
-                _, cw = ctype(i.size)
-                args.append(llsym.Val(z3.ZeroExt(cw - i.size, z) if cw > i.size else z))
+                if i.size <= 64:
+                    _, cw = ctype(i.size)
+                    args.append(llsym.Val(z3.ZeroExt(cw - i.size, z) if cw > i.size else z))
+                else:
+                    full = z3.ZeroExt(BN_BITS - i.size, z) if i.size < BN_BITS else z
+                    it.mem['arg:' + i.name] = [z3.simplify(z3.Extract(8 * k_ + 7, 8 * k_, full)) for k_ in range(BN_BITS // 8)]
+                    args.append(llsym.Ptr('arg:' + i.name, 0))
             nz = ref.nonzero_divisors()
             if nz:
                 eng.assume(z3.And(*nz))
-            it = llsym.Interp(mod, eng, externals, max_steps=b['loop_steps'])
             extra = dict(src=r['src'], text=r['text'])
+            it.on_stdout = lambda fname: eng.fail('no-stdout-write', dict(extra, what="the C code calls %s (writes to stdout)" % fname))
             try:
                 ret = it.call('f%d' % r['k'], args)
             except llsym.Abort as ex:
                 info['called'] |= it.called
                 eng.fail('no-exit', dict(extra, what="the C code calls %s()" % ex))
                 return
+            except llsym.Unsupported as ex:
+                # this path is beyond the interpreter (e.g. the step bound in bignum_udiv): inconclusive, other paths go on
+                from vf.symx import Inconclusive
+                raise Inconclusive("llsym: %s" % ex)
+            if sret:
+                ret = llsym.Val(z3.simplify(z3.Concat(*reversed(it.mem['result']))))
             info['called'] |= it.called
-            if any(ev[0] != 'stderr' for ev in it.events):
-                eng.fail('no-stdout-write', dict(extra, what="calls %s" % [ev for ev in it.events if ev[0] != 'stderr']))
             eng.oblige('no-undefined-behaviour', z3.Not(ret.poison), dict(extra, what="the returned value is poison (deferred UB: "
                                                                                   "overflowing signed arithmetic or oversized shift)"))
-            _, rw = ctype(e.size)
+            rw = ctype(e.size)[1] if e.size <= 64 else BN_BITS
             got = z3.Extract(e.size - 1, 0, ret.bv) if rw > e.size else ret.bv
             if rw > e.size:
                 eng.oblige('masked-result', z3.Extract(rw - 1, e.size, ret.bv) == 0, extra)
@@ -325,8 +390,14 @@ uint8_t MEM_LOOKUP_08(JitCpu *j, uint64_t a) { return 0; }
 uint16_t MEM_LOOKUP_16(JitCpu *j, uint64_t a) { return 0; }
 uint32_t MEM_LOOKUP_32(JitCpu *j, uint64_t a) { return 0; }
 uint64_t MEM_LOOKUP_64(JitCpu *j, uint64_t a) { return 0; }
-int main(void) { uint64_t r = (uint64_t) f0(%s); fprintf(stderr, "RESULT=%%" PRIu64 "\\n", r); return 0; }
+int main(void) { %s }
 """
+
+
+def c_literal(v, size):
+    if size <= 64:
+        return "%dULL" % v
+    return "(bn_t){{%s}}" % ", ".join("0x%xU" % ((v >> (32 * k)) & 0xffffffff) for k in range(BN_BITS // 32))
 
 
 def replay(w):
@@ -357,7 +428,7 @@ def replay(w):
     if r['status'] != 'ok':
         return False, "not translated: %s" % r['status']
     fn, ids = c_function(0, e, r['text'])
-    inp = {k: v & ((1 << 64) - 1) for k, v in w.get('inputs', {}).items()}
+    inp = dict(w.get("inputs", {}))
     vals = {i: inp.get(i.name, 0) & ((1 << i.size) - 1) for i in ids}
     try:
         ref = expr_simp(e.replace_expr({i: ExprInt(v, i.size) for i, v in vals.items()}))
@@ -368,23 +439,34 @@ def replay(w):
     d = tempfile.mkdtemp(prefix='c04r_')
     try:
         cfile = os.path.join(d, 'r.c')
-        open(cfile, 'w').write(HEADER + fn + "\n" + MAIN % ", ".join("%dULL" % vals[i] for i in ids))
+        call = "f0(%s)" % ", ".join(c_literal(vals[i], i.size) for i in ids)
+        if e.size <= 64:
+            body = 'uint64_t r = (uint64_t) %s; fprintf(stderr, "RESULT=%%" PRIx64 "\\n", r); return 0;' % call
+        else:
+            body = ('bn_t r = %s; int k; fprintf(stderr, "RESULT="); for (k = %d; k >= 0; k--) fprintf(stderr, "%%08x", r.array[k]); '
+                    'fprintf(stderr, "\\n"); return 0;' % (call, BN_BITS // 32 - 1))
+        open(cfile, 'w').write(HEADER + fn + "\n" + MAIN % body)
         exe = os.path.join(d, 'r')
         p = subprocess.run([CLANG, '-O1', '-Wno-everything', '-fsanitize=undefined', '-fno-sanitize-recover=all', '-I', JITTER, cfile,
-                            os.path.join(JITTER, 'op_semantics.c'), '-lm', '-o', exe], capture_output=True, text=True)
+                            os.path.join(JITTER, 'op_semantics.c'), os.path.join(JITTER, 'bn.c'), '-lm', '-o', exe],
+                           capture_output=True, text=True)
         if p.returncode != 0:
             return False, "replay build failed: %s" % p.stderr[:300]
-        q = subprocess.run([exe], capture_output=True, text=True, timeout=20)
+        try:
+            q = subprocess.run([exe], capture_output=True, text=True, timeout=20)
+        except subprocess.TimeoutExpired:
+            return True, "%s with %s: C text `%s` does not compute a value: still running after 20 s (reference 0x%x)" % (
+                e, {i.name: hex(v) for i, v in vals.items()}, r['text'], int(ref))
     finally:
         shutil.rmtree(d, ignore_errors=True)
     desc = "%s with %s: C text `%s`" % (e, {i.name: hex(v) for i, v in vals.items()}, r['text'])
     if q.stdout:
         return True, "%s writes to stdout: %r" % (desc, q.stdout[:100])
-    m = re.search(r'RESULT=(\d+)', q.stderr)
+    m = re.search(r'RESULT=([0-9a-f]+)', q.stderr)
     if q.returncode != 0 or not m:
         return True, "%s does not compute a value: exit status %d, %s (reference 0x%x)" % (
             desc, q.returncode, (q.stderr.strip().split('\n') or [''])[0][:200], int(ref))
-    got = int(m.group(1))
+    got = int(m.group(1), 16)
     if got != int(ref):
         return True, "%s computes 0x%x, miasm evaluates 0x%x" % (desc, got, int(ref))
     return False, "%s computes 0x%x like miasm" % (desc, got)
